@@ -202,6 +202,10 @@ def run(ctx):
             rs["prince"] = sorted([("A5", b)] + [(k, (1 - b) / max(1, len(others))) for k, _ in others], key=lambda x: -x[1])
         name = "P%d" % r
         rs["name"] = name
+        if r % 4 == 3:
+            # a ruleset in an encoding with a byte order mark: the -o file is ONE text in that encoding (one mark at its start at most)
+            rs["encoding"] = ctx.rng.choice(["utf-8-sig", "utf-16"])
+            dist["bom_encodings"] = dist.get("bom_encodings", 0) + 1
         lower = ctx.rng.random() < 0.4
         try:
             g = impl_next.load_grammar(rs, sc, False, lower, "Prince")
@@ -323,7 +327,7 @@ def run(ctx):
         dist["file_runs"] += tofile
         rs, _, per_item, ref, probs = refs[name]
         replay = {"ruleset": rs, "all_lower": lower, "n": n, "file": tofile}
-        lines = data.decode(rs["encoding"], "replace").split("\n")
+        lines = data.decode(rs["encoding"] if tofile else "utf-8", "replace").split("\n")
         if lines and lines[-1] == "":
             lines = lines[:-1]
         exp = ref if not n else ref[:n]
@@ -415,8 +419,17 @@ def replay(ctx, data):
     n = inp.get("n")
     _, got, _ = common.run_cli(base + (["-s", str(n)] if n else []), code, env, 120)
     fl, gl = full.split(b"\n")[:-1], got.split(b"\n")[:-1]
+    if inp.get("file"):
+        # the same run with -o: the file, read as ONE text in the ruleset's encoding, is what went to standard output
+        fn = os.path.join(code, "replay_out.txt")
+        _, out2, _ = common.run_cli(base + (["-s", str(n)] if n else []) + ["-o", fn], code, env, 120)
+        data = open(fn, "rb").read() if os.path.exists(fn) else b"<no file>"
+        flines = data.decode(rs.get("encoding", "utf-8"), "replace").split("\n")[:-1]
+        if out2.strip() or flines != [x.decode("utf-8", "replace") for x in gl]:
+            return [{"sig": "C17:content:file", "what": "-o file (%d lines) differs from standard output (%d lines)" % (len(flines), len(gl)),
+                     "replay": inp}]
     flang = file_language(rs, bool(inp.get("all_lower")))
-    if not n and flang is not None and sorted(v.encode(rs.get("encoding", "utf-8")) for v in flang) != sorted(fl):
+    if not n and flang is not None and sorted(v.encode("utf-8") for v in flang) != sorted(fl):
         return [{"sig": "C17:missing:file", "what": "the unbounded list (%d words) is not the language of the ruleset files (%d words) once each"
                  % (len(fl), len(flang)), "replay": inp}]
     if n and len(gl) > n:
